@@ -192,7 +192,7 @@ def names_replay(ctx, exe, results):
     cases.sort(key=canon)
     for i, c in enumerate(cases):
         c["id"] = i
-    inst = 6 if thorough else 2
+    inst = 4 if thorough else 2
 
     def line(c):
         return json.dumps({k: c[k] for k in ("id", "name", "nterm", "unit", "uterm", "sweep")})
@@ -252,7 +252,7 @@ def views_jobs(ctx):
     jobs = [
         # exhaustive model checking (no history variable)
         Job("views-mc-pairs", "Views", views_cfg(t2, "Pats3", "UnitSel2", "MSels4" if thorough else "MSels2", "Shapes2",
-                                                 "INamesAll", "IUnits2" if thorough else "IUnit1", "Meters2", "Attrs1",
+                                                 "INamesAll", "IUnit1", "Meters2", "Attrs1",
                                                  2, 1, False, VIEW_INVS), workers=4, coverage=True),
         Job("views-mc-select", "Views", views_cfg(t2, "PatsAll", "UnitSelAll", "MSelsAll",
                                                   "Shape1", "INamesAll", "IUnitsAll", "MetersAll", "Attrs1", 1, 1, False,
@@ -319,7 +319,7 @@ def views_replay(ctx, exe, results):
         raise Broken("views-g-beh-sim printed no behaviour")
     if tags != VIEW_TAGS:
         raise Broken("vacuity: the replayed view cases miss the situations %s" % sorted(VIEW_TAGS - tags))
-    inst = 3 if thorough else 1
+    inst = 2 if thorough else 1
     out = run_harness_chunks(ctx, exe, "views", [json.dumps({k: l[k] for k in ("id", "shared", "views", "insts")})
                                                    for l in lines], inst, "views", nproc=6)
     stats = {}
@@ -478,16 +478,22 @@ def scope_replay(ctx, exe, results):
                 "rules": w["rules"], "dflt": w["dflt"], "steps": w["steps"], "expected": expect[w["id"]]})
 
 
-def scope_traces(ctx, exe):
-    """code -> spec: long random histories of real providers validated by ScopeConfigTrace.tla."""
-    thorough = ctx.tier == "thorough"
-    nexec, nops = (1500, 60) if thorough else (200, 40)
+def _trace_cfg(ctx):
+    """ScopeConfigTrace config with Dev = the deviations currently listed as known."""
     known = sorted(d for d in SCOPE_DEVS if d in ctx.known_devs())
     cfg = _cfg(ctx, "sctrace.cfg",
                "CONSTANTS\n  SignalSet <- SignalsAll  MatcherSet <- Matchers3  ScopeSet <- Scopes3\n"
                "  MaxRules = 0  MaxGets = 100000  MaxEmits = 100000  Hist = FALSE\n  Dev = {%s}\n"
                "INIT TInit\nNEXT TNext\nCONSTRAINT Progress\nINVARIANTS Report TraceInv\nPOSTCONDITION Accepted\n"
                "CHECK_DEADLOCK FALSE\n" % ", ".join('"%s"' % d for d in known))
+    return known, cfg
+
+
+def scope_traces(ctx, exe):
+    """code -> spec: long random histories of real providers validated by ScopeConfigTrace.tla."""
+    thorough = ctx.tier == "thorough"
+    nexec, nops = (1500, 60) if thorough else (200, 40)
+    known, cfg = _trace_cfg(ctx)
     nproc = 4
     per = (nexec + nproc - 1) // nproc
     lines = []
@@ -583,7 +589,7 @@ def replay(ctx, path):
     rep = json.load(open(path))["replay"]
     part = rep.get("part")
     if part == "trace":
-        cfg = os.path.join("ScopeConfigTrace.cfg")
+        _, cfg = _trace_cfg(ctx)
         lines = [json.dumps(e) for e in rep["events"]]
         res = trace.validate(ctx, "ScopeConfigTrace", cfg, lines, parallel=1, tag="replay")
         for rj in res["rejected"]:
